@@ -864,8 +864,8 @@ var rtSymptoms = []symptom{
 		if !orderDiverges(f.text, f.streamIdx()) {
 			return 0, false
 		}
-		for _, defAsCast := range []bool{false, true} {
-			got, _ := readTextOrder(f.text, defAsCast)
+		for variant := 0; variant < 4; variant++ {
+			got, _ := readTextOrder(f.text, variant&1 != 0, variant&2 != 0)
 			first, last := 0, f.idx
 			if f.mode == "value" {
 				first = f.idx
